@@ -16,6 +16,18 @@ BUILDS = {
     "debug": dict(target_dir="q", args=[], bin_subdir="debug"),
 }
 
+# Miri: undefined-behaviour and data-race interpreter (no process spawning: checks run in-process)
+BUILDS["miri"] = dict(target_dir="miri", runner="miri", sanitizer=True, toolchain=["+nightly"], args=[], run_env={"MIRIFLAGS": "-Zmiri-disable-isolation", "VH_INPROC": "1"})
+# AddressSanitizer on a release build (wrap-on-overflow semantics); leak detection off: savefile leaks deliberately on some error paths
+BUILDS["asan"] = dict(target_dir="asan", sanitizer=True, toolchain=["+nightly"], args=["--release", "--target", "x86_64-unknown-linux-gnu"], bin_subdir="x86_64-unknown-linux-gnu/release",
+                      env={"RUSTFLAGS": "-Zsanitizer=address -Cforce-frame-pointers=yes"}, run_env={"ASAN_OPTIONS": "detect_leaks=0:abort_on_error=1:halt_on_error=1:allocator_may_return_null=1:max_allocation_size_mb=3000", "VH_SANITIZER": "asan"})
+# ThreadSanitizer needs an instrumented std
+BUILDS["tsan"] = dict(target_dir="tsan", sanitizer=True, toolchain=["+nightly"], args=["--release", "-Zbuild-std", "--target", "x86_64-unknown-linux-gnu"], bin_subdir="x86_64-unknown-linux-gnu/release",
+                      single_package=True, env={"RUSTFLAGS": "-Zsanitizer=thread"}, run_env={"TSAN_OPTIONS": "halt_on_error=1:exitcode=66"})
+# valgrind memcheck on the plain release binary (reaches ring / bzip2, which Miri cannot enter)
+BUILDS["memcheck"] = dict(target_dir="q", sanitizer=True, args=["--release"], bin_subdir="release", wrapper=["valgrind", "-q", "--error-exitcode=99", "--errors-for-leak-kinds=none", "--undef-value-errors=yes"],
+                          run_env={"VH_INPROC": "1"})
+
 # plugin flavours: a different compiler (nightly) and randomised struct layouts
 for _seed in range(1, 9):
     BUILDS["plug%d" % _seed] = dict(target_dir="plug%d" % _seed, toolchain=["+nightly"], args=["--release"], bin_subdir="release",
@@ -42,8 +54,8 @@ PROPS = {
              "save_encrypted_file on disk) compared against the reference-normalised value, with consumed bytes checked. "
              "distinct_nontrivial = distinct (type, container, value-class) triples, value-class = coarse structural fingerprint "
              "(lengths bucketed 0/1/few/mid/64/big, sign/zero of numbers, enum variant names).",
-        runs=dict(quick=[dict(build="release", shards=4), dict(build="debug", shards=4)],
-                  thorough=[dict(build="release", shards=16), dict(build="debug", shards=16)]),
+        runs=dict(quick=[dict(build="release", shards=4), dict(build="debug", shards=4), dict(build="miri", shards=8, timeout=900)],
+                  thorough=[dict(build="release", shards=16), dict(build="debug", shards=16), dict(build="miri", shards=16, timeout=3000), dict(build="asan", shards=8)]),
         required_counters=dict(quick=dict(roundtrip_ok=2000, crypto_block_sweep=50, chunk_sweep=50)),
         fresh_zoo=True,
     ),
@@ -75,7 +87,8 @@ PROPS = {
              "ArrayVec<T,5> the container bytes are compared with length prefix + concatenated single-element bytes and the bulk-read elements with element-wise "
              "reads; (c) for families, elements written by definition i are read in bulk by definition j. distinct_nontrivial = distinct (type, version, "
              "container, packed decision).",
-        runs=dict(quick=[dict(build="release", shards=4), dict(build="debug", shards=2)], thorough=[dict(build="release", shards=16), dict(build="debug", shards=16)]),
+        runs=dict(quick=[dict(build="release", shards=4), dict(build="debug", shards=2), dict(build="miri", shards=16, timeout=900)],
+                  thorough=[dict(build="release", shards=16), dict(build="debug", shards=16), dict(build="miri", shards=16, timeout=3000), dict(build="asan", shards=8)]),
         required_counters=dict(quick=dict(decisions_packed_yes=30, image_equals_encoding=100, bulk_read_equals_elementwise=500)),
         fresh_zoo=True,
     ),
@@ -98,7 +111,8 @@ PROPS = {
              "address-space-limited child processes (one per type, every input journalled before use). Verdict per input: error or value; a value is inspected "
              "lengths-first (claimed elements <= input bytes), then bit patterns of bool/char/enum tags, then walked and dropped. distinct_nontrivial = distinct "
              "(type, entry point, mutation class, outcome kind).",
-        runs=dict(quick=[dict(build="release", shards=16, timeout=1500)], thorough=[dict(build="release", shards=16, timeout=3000), dict(build="debug", shards=16, timeout=3000)]),
+        runs=dict(quick=[dict(build="release", shards=16, timeout=1500), dict(build="miri", shards=16, timeout=900)],
+                  thorough=[dict(build="release", shards=16, timeout=3000), dict(build="debug", shards=16, timeout=3000), dict(build="asan", shards=16, timeout=3000), dict(build="miri", shards=16, timeout=3000)]),
         required_counters=dict(quick=dict(returned_error=5000, returned_value=3000)),
         fresh_zoo=True,
     ),
@@ -108,7 +122,7 @@ PROPS = {
              "offset 0..len-1 and loaded; multi-chunk encrypted streams (100 kB, 250 kB) are cut around every frame boundary plus random cuts. A prefix must "
              "be rejected, or (bzip2 only, when just the 11 byte end-of-stream trailer is missing) load to the original value. "
              "distinct_nontrivial = distinct (type, container, error kind, sixteenth of the file in which the cut fell).",
-        runs=dict(quick=[dict(build="release", shards=8)], thorough=[dict(build="release", shards=16), dict(build="debug", shards=16)]),
+        runs=dict(quick=[dict(build="release", shards=8)], thorough=[dict(build="release", shards=16), dict(build="debug", shards=16), dict(build="asan", shards=8), dict(build="memcheck", shards=16, timeout=3000, args=["--type", "Vec<"])]),
         required_counters=dict(quick=dict(cuts=50000, files_exhaustively_truncated=300, crypto_frames=4)),
         exhaustive_counter="files_exhaustively_truncated",
         fresh_zoo=True,
@@ -134,8 +148,8 @@ PROPS = {
              "inline buffer) are run once against the implementation directly (sequential model) and once through AbiConnection::from_boxed_trait. Compared: every "
              "result line, the arguments the implementation recorded, and the creation/drop log of every tracked object (exactly one drop, no use after drop). "
              "distinct_nontrivial = distinct (operation, result-size class).",
-        runs=dict(quick=[dict(build="release", crate="vabi", shards=4), dict(build="debug", crate="vabi", shards=4)],
-                  thorough=[dict(build="release", crate="vabi", shards=16), dict(build="debug", crate="vabi", shards=16)]),
+        runs=dict(quick=[dict(build="release", crate="vabi", shards=4), dict(build="debug", crate="vabi", shards=4), dict(build="miri", crate="vabi", shards=8, timeout=900)],
+                  thorough=[dict(build="release", crate="vabi", shards=16), dict(build="debug", crate="vabi", shards=16), dict(build="miri", crate="vabi", shards=16, timeout=3000), dict(build="asan", crate="vabi", shards=8)]),
         required_counters=dict(quick=dict(results_equal=3000, argument_records_equal=3000, lifetime_logs_clean=100, tracked_objects=1000)),
     ),
     "C10": dict(
@@ -146,8 +160,8 @@ PROPS = {
              "value the caller receives are compared with the reference model's projection through version min(i,j). A hook event per reply checks that the "
              "caller consumed exactly the reply's bytes. Plus a hand-written interface family for methods present on one side only and incompatible signatures. "
              "distinct_nontrivial = distinct (family, i, j, method, value-class).",
-        runs=dict(quick=[dict(build="release", crate="vabi", shards=8), dict(build="debug", crate="vabi", shards=4)],
-                  thorough=[dict(build="release", crate="vabi", shards=16), dict(build="debug", crate="vabi", shards=16)]),
+        runs=dict(quick=[dict(build="release", crate="vabi", shards=8), dict(build="debug", crate="vabi", shards=4), dict(build="miri", crate="vabi", shards=13, timeout=900)],
+                  thorough=[dict(build="release", crate="vabi", shards=16), dict(build="debug", crate="vabi", shards=16), dict(build="miri", crate="vabi", shards=16, timeout=3000)]),
         required_counters=dict(quick=dict(arguments_as_expected=500, returns_as_expected=500, cross_version_pairs=10, reply_hook_events=500, incompatible_signature_rejected=3, missing_method_panics_with_name=1)),
         fresh_zoo=True,
     ),
@@ -182,7 +196,10 @@ PROPS = {
              "objects passed in, and an atomic ticket counter on the shared connection. The verif_hooks callback records the order in which threads pass the points inside "
              "connection creation and injects seeded sleeps/yields between them. Oracles: every result equals the sequential model, tickets are exactly 0..n-1, no panic, "
              "no deadlock (watchdog + gdb stack dump). distinct_nontrivial = distinct observed orderings of (thread, hook point) events.",
-        runs=dict(quick=[dict(build="release", crate="vconc", shards=6)], thorough=[dict(build="release", crate="vconc", shards=16)]),
+        runs=dict(quick=[dict(build="release", crate="vconc", shards=6), dict(build="tsan", crate="vconc", shards=4),
+                         dict(build="miri", crate="vconc", shards=4, timeout=900, env={"MIRIFLAGS": "-Zmiri-disable-isolation -Zmiri-many-seeds=0..4"})],
+                  thorough=[dict(build="release", crate="vconc", shards=16), dict(build="tsan", crate="vconc", shards=16),
+                            dict(build="miri", crate="vconc", shards=16, timeout=3000, env={"MIRIFLAGS": "-Zmiri-disable-isolation -Zmiri-many-seeds=0..16"})]),
         required_counters=dict(quick=dict(trials=100, hook_events=20000, template_cache_misses=100, tickets_drawn=10000)),
     ),
     "C11": dict(
@@ -217,7 +234,7 @@ PROPS = {
              "(thorough) EVERY byte position x EVERY other byte value; larger ones every position x 5 replacements; every truncation length; key bit flips; "
              "wrong passwords (prefix, suffix, case, empty, random); a two-chunk stream attacked in nonce, both length fields, bodies and tags. Every load must "
              "be Err. distinct_nontrivial = distinct (type, api, region of the modification, error kind).",
-        runs=dict(quick=[dict(build="release", shards=8)], thorough=[dict(build="release", shards=16), dict(build="debug", shards=8)]),
+        runs=dict(quick=[dict(build="release", shards=8)], thorough=[dict(build="release", shards=16), dict(build="debug", shards=8), dict(build="asan", shards=8)]),
         required_counters=dict(quick=dict(byte_replacements=50000, truncations=1000, wrong_passwords=50, wrong_keys=50)),
         exhaustive_counter="streams_with_every_byte_every_value",
     ),
@@ -228,7 +245,7 @@ PROPS = {
              "mixing ExpandElement / SelectNth / Up / Nothing with valid and invalid depths, keys, disambiguators, indices; child limits 0/1/2/5/unlimited) under "
              "catch_unwind, checking total_index(i) is Some exactly for i < total_len() and Display. distinct_nontrivial = distinct (type, depth, node kind, fan-out) "
              "+ distinct (type, outcome, frames, limit).",
-        runs=dict(quick=[dict(build="release", shards=4), dict(build="debug", shards=4)], thorough=[dict(build="release", shards=16), dict(build="debug", shards=16)]),
+        runs=dict(quick=[dict(build="release", shards=4), dict(build="debug", shards=4)], thorough=[dict(build="release", shards=16), dict(build="debug", shards=16), dict(build="miri", shards=16, timeout=3000)]),
         required_counters=dict(quick=dict(commands=20000, len_matches_children=2000, flat_index_consistent=5000)),
         fresh_zoo=True,
     ),
@@ -238,7 +255,7 @@ PROPS = {
              "constructor, appended enum variants; packed repr(C) families included). One evaluation = value of definition j written with bare_serialize at version "
              "k<=j, bytes compared with the reference encoding at version k, then read by definition k; plus the packed decision of definition j at version k "
              "checked against the wire size at k. distinct_nontrivial = distinct (family, j, k, value-class).",
-        runs=dict(quick=[dict(build="release", shards=2), dict(build="debug", shards=2)], thorough=[dict(build="release", shards=16), dict(build="debug", shards=16)]),
+        runs=dict(quick=[dict(build="release", shards=2), dict(build="debug", shards=2)], thorough=[dict(build="release", shards=16), dict(build="debug", shards=16), dict(build="miri", shards=8, timeout=3000)]),
         required_counters=dict(quick=dict(cross_version_ok=80)),
         fresh_zoo=True,
     ),
@@ -258,6 +275,43 @@ def build_cmd(flavor, crate, tier):
     else:
         cmd += ["-p", CRATES[crate]["package"]]
     return cmd + spec.get("args", [])
+
+
+import time
+
+
+def build(VERIF, flavor, crate, tier, run, log):
+    """returns (ok, binary path or error text)"""
+    spec = BUILDS[flavor]
+    ws = os.path.join(VERIF, spec.get("workspace", {}).get(crate, CRATES[crate]["workspace"]))
+    target = os.path.join(VERIF, "target", spec["target_dir"])
+    if spec.get("runner") == "miri":
+        # there is no `cargo miri build`: a no-op run builds the binary; shards then use `cargo miri run`
+        cmd = ["cargo"] + spec.get("toolchain", []) + ["miri", "run", "--offline", "-p", CRATES[crate]["package"], "--bin", CRATES[crate]["bin"], "--", "noop"]
+        env = {"CARGO_TARGET_DIR": target}
+        env.update(spec.get("run_env", {}))
+        t0 = time.time()
+        rc, out = run(cmd, cwd=ws, env=env, timeout=3600)
+        if rc != 0:
+            return False, "miri build %s failed (rc=%s):\n%s" % (crate, rc, out[-4000:])
+        log("[build] %s/%s ok in %.0fs" % (flavor, crate, time.time() - t0))
+        return True, "MIRI:" + crate
+    cmd = build_cmd(flavor, crate, tier)
+    env = {"CARGO_TARGET_DIR": target}
+    env.update(spec.get("env", {}))
+    t0 = time.time()
+    rc, out = run(cmd, cwd=ws, env=env, timeout=3600)
+    dt = time.time() - t0
+    if rc != 0:
+        return False, "build %s/%s failed (rc=%s) after %.0fs:\n%s" % (flavor, crate, rc, dt, out[-4000:])
+    sub = spec.get("bin_subdir", "release")
+    binp = os.path.join(target, sub, CRATES[crate]["bin"])
+    if not os.path.exists(binp):
+        return False, "binary %s missing after build" % binp
+    log("[build] %s/%s ok in %.0fs" % (flavor, crate, dt))
+    return True, binp
+
+
 
 
 def prepare_fresh_zoo(verif, seed, log):
